@@ -558,7 +558,7 @@ Definition finish_call (t : tok) (l : locals) : presult :=
   let t := if validate_utf8 t && negb (nbytes l =? 0) then set_err t TE_utf8 else t in
   let t := if negb (c =? 0) && tstate_eqb (st t) S_finish && (depth t =? 0) && strict t && negb (allow_trailing t)
            then set_err t TE_unexpected else t in
-  let t := if (c =? 0) && negb (tstate_eqb (st t) S_finish) && negb (tstate_eqb (sv t) S_finish)
+  let t := if (c =? 0) && (negb (depth t =? 0) || (negb (tstate_eqb (st t) S_finish) && negb (tstate_eqb (sv t) S_finish)))
            then set_err t TE_eof else t in
   match err t with
   | TE_success => PR (reset_levels t) (Some (s_cur (top t)))
